@@ -83,7 +83,7 @@ def run(ctx):
     ok, why = ctx.proof_stage("Props.C15", THEOREMS)
     core.build_harness(bins=["infer"])
     r = ctx.rng
-    total = ctx.n(900, 60000)
+    total = ctx.n(900, 5000)
     fams = [("pinned", c14.pinned_cases()), ("sweep", c14.sweep_cases()),
             ("late-failures", failing_histories(ctx, total // 2, r)),
             ("c14-invariant", c14.random_cases(ctx, total // 4, r, c14.PROFILES["c14-invariant"])),
